@@ -257,6 +257,28 @@ def workload(rng, io=0, kind="mixed", nsteps=14):
     return fixed, cfg
 
 
+def merge_workload(rng, io=0):
+    """a history whose merge output spans several files, followed by the adopting restart (C07)"""
+    fs = rng.choice([4096, 4096, 8192])
+    cfg = {"fs": fs, "sync": rng.choice([0, 1]), "bps": 0, "idx": rng.choice([1, 2, 3]), "io": io, "shards": rng.choice([1, 4, 16])}
+    keys = ["%02x%02x" % (97 + j, 97 + j) for j in range(rng.choice([6, 9]))]
+    ops = [engine.open_line("d", cfg)]
+    seed = rng.randrange(1000)
+    for r in range(rng.choice([2, 3])):
+        for k in keys:
+            seed += 1
+            ops.append("put %s p%d:%d" % (k, seed, rng.choice([700, 1100, 1500])))
+    ops.append("del " + keys[0])
+    if rng.random() < 0.5:
+        ops += ["bnew 0 %d" % (7000000 + seed), "bput %s p%d:900" % (keys[1], seed + 1), "bdel " + keys[2], "bcommit", "bdrop"]
+    ops.append("merge")
+    for _ in range(rng.choice([0, 2])):
+        seed += 1
+        ops.append("put %s p%d:%d" % (rng.choice(keys), seed, rng.choice([10, 1200])))
+    ops += ["close", engine.open_line("d", cfg), "put %s x01" % keys[3], "close"]
+    return ops, cfg
+
+
 def sync_policy_check(res, name, ops, recs):
     """C13 on the event log: at the return of every public call, which bytes are covered by a completed sync.
     Every write event is attributed to the public call that issued it; a completed sync of a file covers
